@@ -29,13 +29,17 @@ def sym_table(ctx, n):
     return list(zip(ids, addrs))
 
 
-def o1_update(ctx, role, lvl, n, frames=1, tr=None, first=None, relay=False):
+def o1_update(ctx, role, lvl, n, frames=1, tr=None, first=None, relay=False, full=False):
     clock = fresh_env(ctx)
     radio, node, addr = build_node(ctx, clock, role, lvl)
     link, outcome = per_packet_link(ctx, radio)
     if relay:
         node.multicast_relay = True
-    if role == "master":
+    if role == "master" and full:
+        # every child slot of the master and of the relay 0o1 is leased (to IDs 10..18): an address request cannot be served
+        tab = [[10 + i, a] for i, a in enumerate((0o1, 0o2, 0o3, 0o4, 0o5, 0o11, 0o21, 0o31, 0o41))]
+        node.dhcp_dict = SymDict(tab) if ctx.symbolic else dict(tab)
+    elif role == "master":
         tab = sym_table(ctx, 2)
         node.dhcp_dict = SymDict(tab) if ctx.symbolic else dict(tab)
     payloads = []
@@ -147,6 +151,9 @@ def jobs(tier):
                                cost=(0.1 if n < 8 else 10 + lvl * 5), shards=(1 if n < 8 else 6)))
     for role, lvl in ((("mesh", 1), ("net", 4)) if tier == "quick" else (("mesh", 1), ("net", 4), ("routing", 0), ("master", 0), ("mesh", 3))):
         out.append(Job("O1-update-arbitrary-frame-relay-on", o1_update, dict(role=role, lvl=lvl, n=8, relay=True), cost=30, shards=6))
+    for n in ((8, 9) if tier == "quick" else (8, 9, 10, 12)):
+        out.append(Job("O1-update-arbitrary-frame-full-lease-table", o1_update, dict(role="master", lvl=0, n=n, full=True, tr=[190, 200]),
+                       cost=40, shards=6))
     # sequences of two frames read in one update() pass (state carried from the first to the second)
     for t in (195, 194, 1):
         out.append(Job("O1-update-two-frames", o1_update, dict(role="master", lvl=0, n=8, frames=2, first=t), cost=400, shards=6))
